@@ -41,8 +41,10 @@ def make_script(rng, wrap):
         elif w == 1:
             ops.append(("ctrl", rng.choice([i, 0]) if defs else i, W.cmd("CMD POWERON")))
         elif w == 2:
-            vers[i] = rng.below(2)
-            ops.append(("ctrl", i, W.cmd("CMD SETFORMAT %d" % vers[i])))
+            v = rng.choice([0, 1, 0, 1, 0, 1, 2, 7, 15, 16])      # unsupported requests are answered with a suggestion and change nothing
+            if v < 2:
+                vers[i] = v
+            ops.append(("ctrl", i, W.cmd("CMD SETFORMAT %d" % v)))
         elif w < 8:
             ahead = rng.choice([0, 0, 1, 1, 2, 3, 5, -1, -2]) if not wrap else rng.choice([0, 1, 2, 3, 4])
             f = (fn + ahead) % H
